@@ -43,6 +43,17 @@ CHECKS = {
              "by the worker's own latest PATCH before timeout seconds have passed since that response; raw-event handlers "
              "run at the delivery instant.",
         design_ref='DESIGN.md §6 C07'),
+    'C03': dict(
+        technique="explicit-state history enumeration on the implementation (all external histories to depth d, two spacings) "
+                  "plus exhaustive crash-point enumeration and deviation-bounded schedule search, with a quiescence oracle",
+        text="Every history up to depth 3 (quick) / 4 (thorough) after the initial create over {spec a->b, b->a, label edit, "
+             "status edit, delete, kill+restart, graceful restart, downtime with an edit inside}, in two spacings, with 1 or 2 "
+             "handlers per cause that fail their first n attempts, is run through the real closed loop; on the shorter "
+             "histories every crash point (kill before/after the server applied each in-flight PATCH, then restart) and a "
+             "deviation-bounded timing search run on top. At a horizon 24 virtual seconds after the last external activity: no "
+             "more operator writes; no progress records; last-handled == essence; deleted objects gone; every handler of the "
+             "outstanding change completed on the final state (the one known way this fails is recorded in known_findings.json).",
+        design_ref='DESIGN.md §6 C03'),
 }
 
 
